@@ -1,8 +1,169 @@
-import Pymeeus.Gen.Q.Interpolation
-namespace Pymeeus.C12
-open Pymeeus
+import Pymeeus.Refine.Interpolation
+/-
+C12 — Interpolation reproduces polynomials; roots and extrema lie where asked.
 
-/-- placeholder while the property theorems are being written -/
-theorem placeholder : (1 : Nat) = 1 := rfl
+Property theorems only (helpers: Lemmas/Newton.lean, Refine/OrderPoints.lean, Refine/Interpolation.lean,
+Refine/Root.lean).  Statements are about `Pymeeus.GenQ.Interpolation`, the exact (rational) instantiation
+of the model lean/templates/Interpolation.lean; tables have ANY number of points (≥ 2).
+`poly o` is Mathlib's Lagrange interpolating polynomial through the points of the object `o`;
+`nodes l i` is `l[i]`.
+-/
+namespace Pymeeus.C12
+open Pymeeus Pymeeus.PQ Pymeeus.GenQ.Interpolation Pymeeus.Refine.Interpolation Polynomial
+
+/-! ### Construction: ordering, independence of the input order and form -/
+
+/-- `_order_points` returns a permutation of the points, sorted by abscissa. -/
+theorem order_points_sorted_perm (x y : List ℚ) (hlen : x.length = y.length) :
+    ((order_points x y).1.zip (order_points x y).2).Perm (x.zip y) ∧
+    (order_points x y).1.Pairwise (· ≤ ·) ∧
+    (order_points x y).1.length = x.length ∧ (order_points x y).2.length = x.length := by
+  obtain ⟨h1, h2, h3, h4⟩ := order_points_spec x y hlen
+  exact ⟨h3, h4, h1, h2⟩
+
+/-- "whatever the order in which the points were supplied": two tables that are permutations of each other
+    (as lists of points) give the same object, or are refused alike. -/
+theorem construction_order_independent (tol : ℚ) (x y x' y' : List ℚ)
+    (hlen : x.length = y.length) (hlen' : x'.length = y'.length) (hperm : (x.zip y).Perm (x'.zip y')) :
+    GenQ.Interpolation.set tol [.list x, .list y] = GenQ.Interpolation.set tol [.list x', .list y'] := by
+  have hl : x.length = x'.length := by
+    have := hperm.length_eq
+    simp only [List.length_zip, ← hlen, ← hlen', Nat.min_self] at this
+    exact this
+  rw [set_two_lists, set_two_lists, ← hlen, ← hlen', Nat.min_self, Nat.min_self, ← hl]
+  by_cases h2 : x.length < 2
+  · rw [if_pos h2, if_pos h2]
+  · rw [if_neg h2, if_neg h2, List.take_of_length_le (le_refl _), List.take_of_length_le (le_of_eq hlen.symm),
+      List.take_of_length_le (le_of_eq hl.symm), List.take_of_length_le (by rw [← hlen', hl])]
+    have hx : x.Perm x' := by
+      have := hperm.map Prod.fst
+      rwa [map_fst_zip_eq hlen, map_fst_zip_eq hlen'] at this
+    unfold finish
+    rw [has_dup_perm tol hx]
+    by_cases hd : has_dup tol x' = true
+    · rw [if_pos hd, if_pos hd]
+    · rw [if_neg hd, if_neg hd]
+      by_cases h0 : 0 < tol
+      · have hnd : x.Nodup := hx.nodup_iff.mpr (has_dup_false h0 (by simpa using hd))
+        rw [order_points_perm_invariant x y x' y' hlen hlen' hperm hnd]
+      · -- a non-positive tolerance: the table cannot be computed, whatever the order
+        have hp : plt 0 tol = false := by simp [plt, h0]
+        simp only [compute_table, hp, Bool.not_false, if_true]
+        have l1 := (order_points_spec x y hlen).1
+        have l2 := (order_points_spec x' y' hlen').1
+        have p1 : (order_points x y).1.length > 0 := by rw [l1]; omega
+        have p2 : (order_points x' y').1.length > 0 := by rw [l2, ← hl]; omega
+        simp only [p1, p2, if_true]
+
+/-- "…and whatever input form was used": positional pairs `x0, y0, x1, y1, …` (with or without a trailing
+    unpaired argument) build what the two lists build; the copy constructor returns the object. -/
+theorem construction_form_independent (tol : ℚ) (pts : List (ℚ × ℚ)) (h : 2 ≤ pts.length) (z : ℚ) (o : Interp) :
+    GenQ.Interpolation.set tol (flat pts)
+      = GenQ.Interpolation.set tol [.list (pts.map Prod.fst), .list (pts.map Prod.snd)] ∧
+    GenQ.Interpolation.set tol (flat pts ++ [.num z])
+      = GenQ.Interpolation.set tol [.list (pts.map Prod.fst), .list (pts.map Prod.snd)] ∧
+    GenQ.Interpolation.set tol [.interp o] = .ok o :=
+  ⟨set_varargs tol pts h, set_varargs_odd tol pts h z, rfl⟩
+
+/-! ### The interpolant passes through every point and reproduces polynomials -/
+
+/-- "The interpolating polynomial through n tabulated points passes through every point": for the Newton form
+    itself (Horner evaluation of the divided-difference table, not only the node shortcut of `__call__`), and
+    for `__call__`. -/
+theorem interpolates (xs ys : List ℚ) (o : Interp)
+    (hset : GenQ.Interpolation.set TOL [.list xs, .list ys] = .ok o) :
+    (∀ i < o.x.length, horner (nodes o.x i) o.x o.table = nodes o.y i) ∧
+    (∀ p ∈ xs.zip ys, call o p.1 = .ok p.2) := by
+  obtain ⟨wf, htol, hperm, _⟩ := set_two_lists_ok TOL_pos TOL_le_one hset
+  have hnode : ∀ i < o.x.length, horner (nodes o.x i) o.x o.table = nodes o.y i := by
+    intro i hi
+    rw [horner_eq_eval wf]
+    exact Lagrange.eval_interpolate_at_node (nodes o.y) (injOn_nodes wf.sorted) (Finset.mem_range.mpr hi)
+  refine ⟨hnode, ?_⟩
+  intro p hp
+  have hp' : p ∈ o.x.zip o.y := hperm.symm.subset hp
+  obtain ⟨i, hi, hget⟩ := List.mem_iff_getElem.mp hp'
+  have hix : i < o.x.length := by simp at hi; exact hi.1
+  have hiy : i < o.y.length := by simp at hi; exact hi.2
+  have e1 : p.1 = nodes o.x i := by
+    unfold nodes; rw [List.getD_eq_getElem _ 0 hix, ← hget]; simp
+  have e2 : p.2 = nodes o.y i := by
+    unfold nodes; rw [List.getD_eq_getElem _ 0 hiy, ← hget]; simp
+  rw [call_eq wf]
+  cases hn : node_hit o.tol p.1 o.x o.y with
+  | some v =>
+    -- the node that was hit is `i` itself: the abscissae are more than `tol` apart
+    obtain ⟨j, hj, hclose, hv⟩ := node_hit_some o.tol p.1 o.x o.y v wf.len hn
+    have hij : j = i := by
+      by_contra hne
+      have hdist : ¬ |nodes o.x i - nodes o.x j| < o.tol := by
+        -- from the duplicate check of `set`
+        rw [set_two_lists] at hset
+        split_ifs at hset with hl
+        unfold finish at hset
+        split_ifs at hset with hd
+        have hpw := (has_dup_false_iff TOL _).mp (by simpa using hd)
+        have hx : o.x.Perm (xs.take (min xs.length ys.length)) := by
+          have := hperm.map Prod.fst
+          rw [map_fst_zip_eq wf.len, ← take_zip, map_fst_zip_eq (by simp)] at this
+          exact this
+        have hpw' : o.x.Pairwise (fun a b => ¬ |a - b| < TOL) :=
+          (hx.pairwise_iff (fun {a b} hab => by rwa [abs_sub_comm])).mpr hpw
+        rw [htol]
+        have gi : nodes o.x i = o.x[i] := by unfold nodes; exact List.getD_eq_getElem _ 0 hix
+        have gj : nodes o.x j = o.x[j] := by unfold nodes; exact List.getD_eq_getElem _ 0 hj
+        rw [gi, gj]
+        rcases Nat.lt_or_gt_of_ne hne with hlt | hgt
+        · rw [abs_sub_comm]; exact List.pairwise_iff_getElem.mp hpw' j i hj hix hlt
+        · exact List.pairwise_iff_getElem.mp hpw' i j hix hj hgt
+      rw [e1] at hclose
+      exact hdist hclose
+    rw [hv, hij, e2]
+  | none =>
+    exfalso
+    have := (node_hit_none_iff o.tol p.1 o.x o.y wf.len).mp hn i hix
+    apply this
+    rw [e1, sub_self, abs_zero, htol]; exact TOL_pos
+
+/-- "reproduces any polynomial of degree below n … whatever the order in which the points were supplied":
+    if the ordinates are the values of a polynomial `p` of degree `< n` then the Newton form evaluates to `p`
+    everywhere, exactly; `__call__` returns `p(t)` for every `t` inside the table that is not within the
+    tolerance of a node (there it returns the node's ordinate `p(x_i)`). -/
+theorem reproduces_polynomial (xs ys : List ℚ) (o : Interp) (p : ℚ[X])
+    (hset : GenQ.Interpolation.set TOL [.list xs, .list ys] = .ok o)
+    (hdeg : p.degree < (o.x.length : ℕ)) (hval : ∀ q ∈ xs.zip ys, q.2 = p.eval q.1) :
+    poly o = p ∧ (∀ t, horner t o.x o.table = p.eval t) ∧
+    (∀ t v, call o t = .ok v → v = p.eval t ∨ ∃ i < o.x.length, |t - nodes o.x i| < TOL ∧ v = p.eval (nodes o.x i)) := by
+  obtain ⟨wf, htol, hperm, _⟩ := set_two_lists_ok TOL_pos TOL_le_one hset
+  have hnodes : ∀ i < o.x.length, nodes o.y i = p.eval (nodes o.x i) := by
+    intro i hi
+    have hiy : i < o.y.length := wf.len ▸ hi
+    have hm : (o.x[i], o.y[i]) ∈ o.x.zip o.y := by
+      rw [List.mem_iff_getElem]; exact ⟨i, by simp [hi, hiy], by simp⟩
+    have := hval _ (hperm.subset hm)
+    unfold nodes
+    rw [List.getD_eq_getElem _ 0 hi, List.getD_eq_getElem _ 0 hiy]
+    exact this
+  have hpoly : poly o = p := by
+    symm
+    apply Lagrange.eq_interpolate_of_eval_eq (nodes o.y) (injOn_nodes wf.sorted)
+    · rw [Finset.card_range]; exact hdeg
+    · intro i hi; exact (hnodes i (Finset.mem_range.mp hi)).symm
+  refine ⟨hpoly, fun t => by rw [horner_eq_eval wf, hpoly], ?_⟩
+  intro t v hc
+  rw [call_eq wf] at hc
+  cases hn : node_hit o.tol t o.x o.y with
+  | some w =>
+    rw [hn] at hc
+    injection hc with hc
+    obtain ⟨i, hi, hclose, hw⟩ := node_hit_some o.tol t o.x o.y w wf.len hn
+    right
+    exact ⟨i, hi, by rw [← htol]; exact hclose, by rw [← hc, hw, hnodes i hi]⟩
+  | none =>
+    rw [hn] at hc
+    simp only at hc
+    split_ifs at hc
+    injection hc with hc
+    left; rw [← hc, hpoly]
 
 end Pymeeus.C12
